@@ -289,3 +289,70 @@ func VerifHarness_AsAndCommas() {
 	l2, ok4 := verifParseExpr("[a, b,]")
 	errors.VerifAssert("trailing-comma-in-list", ok3 && ok4 && l1 == l2)
 }
+
+// ---- comments with unconstrained content ----
+
+func verifParseRunes(prog []rune) (string, bool) {
+	p := NewParser(lexer.VerifLexerFromRunes(prog), "f.hms")
+	if err := p.next(); err != nil {
+		return "lex error: " + err.Message, false
+	}
+	e, _, err := p.expression(0)
+	if err != nil {
+		return "error: " + err.Message, false
+	}
+	if p.CurrentToken.Kind != lexer.Semicolon {
+		return "trailing tokens", false
+	}
+	return verifCanon(e), true
+}
+
+// VerifHarness_CommentLayout: `a OP1 <comment> b OP2 <comment> c` where the comments' content is <= K unconstrained
+// runes each (block comment: any content without the terminator; line comment: any content without a line feed). The
+// tree must be the one of `a OP1 b OP2 c`: a comment ends exactly at its terminator whatever it contains.
+func VerifHarness_CommentLayout() {
+	K := errors.VerifParam("K", 3)
+	pair := errors.VerifNdIntRange("ops", 0, 2)
+	op1 := []string{"+", "*", "="}[pair]
+	op2 := []string{"*", "+", "||"}[pair]
+	want := []string{"(a + (b * c))", "((a * b) + c)", "(a = (b || c))"}[pair]
+	kind := errors.VerifNdIntRange("comment", 0, 1) // 0 block, 1 line
+	errors.VerifTag("comment", []string{"block", "line"}[kind])
+	n := errors.VerifNdIntRange("len", 0, K)
+	content := make([]rune, n)
+	for i := range content {
+		r := errors.VerifNdRune(fmt.Sprintf("r%d", i))
+		errors.VerifAssume(r >= 0)
+		errors.VerifAssume(r <= 0x10FFFF)
+		errors.VerifAssume(errors.VerifOr(r < 0xD800, r > 0xDFFF))
+		if kind == 1 {
+			errors.VerifAssume(r != '\n')
+		}
+		content[i] = r
+	}
+	if kind == 0 {
+		for i := 0; i+1 < n; i++ {
+			errors.VerifAssume(!errors.VerifAnd(content[i] == '*', content[i+1] == '/'))
+		}
+	}
+	comment := func() []rune {
+		if kind == 0 {
+			return append(append([]rune("/*"), content...), []rune("*/")...)
+		}
+		return append(append([]rune("//"), content...), '\n')
+	}
+	prog := []rune("a " + op1 + " ")
+	prog = append(prog, comment()...)
+	prog = append(prog, []rune(" b "+op2)...)
+	prog = append(prog, comment()...)
+	prog = append(prog, []rune("c;")...)
+	got, ok := verifParseRunes(prog)
+	errors.VerifReached("parsed")
+	if !ok {
+		errors.VerifTag("err", got)
+	}
+	errors.VerifAssert("expression-with-comments-parses", ok)
+	if ok {
+		errors.VerifAssert("comment-content-never-changes-the-tree", got == want)
+	}
+}
